@@ -426,6 +426,20 @@ def run_solver_tests(ctx):
                 _, s_full, V_full = run("full")
                 _, s_rand, V_rand = run("randomized")
                 ctx.case(("steep", front, kk, ratio, i), tag="solver-test:steep:" + front)
+                if front == "Decomposer":
+                    # the same matrix held as a dask array (randomised back-end: dask's svd_compressed)
+                    try:
+                        import dask.array as dsa
+                        Xk_ = xr.DataArray(dsa.from_array(Xs.values, chunks=(max(2, ns // 3), ps)), dims=("sample", "feature"))
+                        dd = Decomposer(n_modes=kk, solver="randomized", random_state=seed)
+                        dd.fit(Xk_)
+                        s_dask, V_dask = np.asarray(dd.s_.values), np.asarray(dd.V_.values)
+                        ctx.case(("steep", "Decomposer-dask", kk, ratio, i), tag="solver-test:steep:Decomposer-dask")
+                        if not np.allclose(s_full, s_dask, rtol=1e-6, atol=1e-9) or not np.allclose(V_full @ V_full.T, V_dask @ V_dask.T, atol=1e-6):
+                            ctx.violation("C15:exact-vs-randomized:steep:dask", "Decomposer on dask data: full (numpy) and randomized (dask) disagree on a steep spectrum (ratio %g, %d modes, "
+                                          "gap after the last one): singular values %r vs %r" % (ratio, kk, s_full[-3:], s_dask[-3:]), dict(kind="solver", s=ss, seed=seed, front="Decomposer-dask"))
+                    except NotImplementedError:
+                        ctx.dist["steep:dask:refused"] += 1
                 if not np.allclose(s_full, s_rand, rtol=1e-6, atol=1e-9) or not np.allclose(V_full @ V_full.T, V_rand @ V_rand.T, atol=1e-6):
                     ctx.violation("C15:exact-vs-randomized:steep:" + front, "%s: full and randomized disagree on a steep spectrum (ratio %g, %d modes, gap after the last one): "
                                   "singular values %r vs %r" % (front, ratio, kk, s_full[-3:], s_rand[-3:]), dict(kind="solver", s=ss, seed=seed, front=front))
